@@ -28,7 +28,9 @@ def where(p):
 def engine_health(chk, g):
     for cid, c in g["res"].items():
         if c["budget"]:
-            raise AnalysisBroken("XAI path budget exhausted in cell %s" % cid)
+            # the paths explored so far are still examined (a violation on them is real); without one the run is broken
+            chk.deferred.append("XAI path budget exhausted in cell %s" % cid)
+            continue
         for p in c["paths"]:
             for a in p["alarms"]:
                 if a["kind"] in SOFT:
@@ -64,7 +66,7 @@ def c13(chk, g):
         mt = meta[cid]
         cd = cell_desc(meta, cid)
         for pi, p in enumerate(c["paths"]):
-            cnt, nrb, osz = p["roots"]
+            cnt, nrb, osz = p["roots"][:3]
             box = "count=[%d,%d] output_size=[%d,%d]" % (cnt[0], cnt[1], osz[0], osz[1])
             hard = [a for a in p["alarms"] if a["kind"] in HARD]
             for a in hard:
@@ -275,7 +277,7 @@ def c11(chk, g):
         method = G.method_of_row(mt["row"])
         cd = cell_desc(meta, cid)
         for p in c["paths"]:
-            cnt, nrb, osz = p["roots"]
+            cnt, nrb, osz = p["roots"][:3]
             if osz[1] < 192:
                 continue       # cost questions are asked for documented buffer sizes; small sizes are C13's
             chars, term = G.path_string(p)
@@ -411,7 +413,7 @@ def c12(chk, g):
             continue
         cd = cell_desc(meta, cid)
         for p in c["paths"]:
-            cnt, nrb, osz = p["roots"]
+            cnt, nrb, osz = p["roots"][:3]
             if not G.is_success(p):
                 continue
             chars, term = G.path_string(p)
